@@ -1789,3 +1789,210 @@ func init() {
 		Doc: "path search default: where stdlib returns FileNotFoundError under a boolean local with a constant initial value (the probes' keep-looking / found flag), the initial value is the one that selects the report — no probe at all means not found, never success",
 		Run: runNotFoundDefault})
 }
+
+// ---- C07.R9: an arithmetic right shift never answers without looking at the sign ----
+//
+// Python's >> on integers is a floor shift: every bit shifted out leaves 0 for a non-negative operand and -1 for a
+// negative one. Go's >> on a signed word does exactly that for any count, so the machine-word methods need no special
+// case; a special case that answers with a constant (for "count >= 64") is right only if it distinguishes the sign.
+// Decided on Int.M__rshift__/M__rrshift__ and the py functions they call that shift: every return that yields a result
+// (not nil, not NotImplemented) either contains a >> of a signed operand, or hands on another such function's result,
+// or is governed by a condition that mentions the shifted operand.
+func runRshiftSign(c *Ctx, r *Rep) {
+	p := c.MustPkg("py")
+	info := p.TypesInfo
+	decls := map[*types.Func]*ast.FuncDecl{}
+	for _, f := range c.Files(p) {
+		for _, d := range f.Decls {
+			if fd, ok := d.(*ast.FuncDecl); ok && fd.Body != nil {
+				if fn, ok := info.Defs[fd.Name].(*types.Func); ok {
+					decls[fn] = fd
+				}
+			}
+		}
+	}
+	hasShr := func(n ast.Node) (found bool, operands map[types.Object]bool) {
+		operands = map[types.Object]bool{}
+		ast.Inspect(n, func(m ast.Node) bool {
+			if be, ok := m.(*ast.BinaryExpr); ok && be.Op == token.SHR {
+				if tv, ok := info.Types[be.X]; ok {
+					if b, ok := tv.Type.Underlying().(*types.Basic); ok && b.Info()&types.IsInteger != 0 && b.Info()&types.IsUnsigned == 0 {
+						found = true
+						ast.Inspect(be.X, func(k ast.Node) bool {
+							if id, ok := k.(*ast.Ident); ok {
+								if o := info.Uses[id]; o != nil {
+									operands[o] = true
+								}
+							}
+							return true
+						})
+					}
+				}
+			}
+			return true
+		})
+		return
+	}
+	done := map[*types.Func]bool{}
+	n := 0
+	var analyse func(fn *types.Func, depth int)
+	analyse = func(fn *types.Func, depth int) {
+		fd := decls[fn]
+		if fd == nil || done[fn] || depth > 3 {
+			return
+		}
+		done[fn] = true
+		id := declID(p, fd)
+		_, operands := hasShr(fd.Body)
+		// locals copied from an operand count as the operand (x := int64(a))
+		for round := 0; round < 2; round++ {
+			ast.Inspect(fd.Body, func(m ast.Node) bool {
+				if as, ok := m.(*ast.AssignStmt); ok && len(as.Lhs) == len(as.Rhs) {
+					for i, l := range as.Lhs {
+						if lid := identOf(l); lid != nil && operands[info.ObjectOf(lid)] {
+							ast.Inspect(as.Rhs[i], func(k ast.Node) bool {
+								if rid, ok := k.(*ast.Ident); ok {
+									if o, ok := info.Uses[rid].(*types.Var); ok {
+										operands[o] = true
+									}
+								}
+								return true
+							})
+						}
+					}
+				}
+				return true
+			})
+		}
+		mentionsOperand := func(e ast.Expr) bool {
+			hit := false
+			ast.Inspect(e, func(k ast.Node) bool {
+				if id, ok := k.(*ast.Ident); ok && operands[info.Uses[id]] {
+					hit = true
+				}
+				return true
+			})
+			return hit
+		}
+		var stack []ast.Node
+		ast.Inspect(fd.Body, func(m ast.Node) bool {
+			if m == nil {
+				stack = stack[:len(stack)-1]
+				return true
+			}
+			stack = append(stack, m)
+			if _, ok := m.(*ast.FuncLit); ok {
+				stack = stack[:len(stack)-1]
+				return false
+			}
+			rs, ok := m.(*ast.ReturnStmt)
+			if !ok || len(rs.Results) == 0 {
+				return true
+			}
+			res := unparen(rs.Results[0])
+			if s := exprStr(res); s == "nil" || s == "NotImplemented" {
+				return true
+			}
+			if found, _ := hasShr(res); found {
+				n++
+				r.ok(fmt.Sprintf("rshift|%s|return %s", id, exprStr(res)), rs.Pos(), "the result is a signed >>: the sign fills the vacated bits")
+				return true
+			}
+			// hands on another function's result
+			if call, ok := res.(*ast.CallExpr); ok {
+				if cf := Callee(info, call); cf != nil && decls[cf] != nil {
+					if inner, _ := hasShr(decls[cf].Body); inner || strings.Contains(cf.Name(), "shift") {
+						analyse(cf, depth+1)
+						return true
+					}
+					return true // BigInt arithmetic etc.: not a machine-word shortcut
+				}
+			}
+			// a local holding a shift result
+			if idn := identOf(res); idn != nil {
+				if o := info.Uses[idn]; o != nil {
+					isShr := false
+					ast.Inspect(fd.Body, func(k ast.Node) bool {
+						if as, ok := k.(*ast.AssignStmt); ok && len(as.Lhs) == len(as.Rhs) {
+							for i, l := range as.Lhs {
+								if lid := identOf(l); lid != nil && info.ObjectOf(lid) == o {
+									if f, _ := hasShr(as.Rhs[i]); f {
+										isShr = true
+									}
+								}
+							}
+						}
+						return true
+					})
+					if isShr {
+						return true
+					}
+				}
+			}
+			if tv, ok := info.Types[res]; !ok || tv.Value == nil {
+				// a conversion of a constant: Int(0)
+				isConst := false
+				if call, ok := res.(*ast.CallExpr); ok && len(call.Args) == 1 {
+					if atv, ok := info.Types[call.Args[0]]; ok && atv.Value != nil {
+						isConst = true
+					}
+				}
+				if !isConst {
+					return true // computed some other way: not this rule's shape
+				}
+			}
+			// a constant answer: must be governed by a test on the shifted operand
+			governed := false
+			for i := len(stack) - 2; i >= 0 && !governed; i-- {
+				switch par := stack[i].(type) {
+				case *ast.IfStmt:
+					if (par.Body == stack[i+1] || par.Else == stack[i+1]) && mentionsOperand(par.Cond) {
+						governed = true
+					}
+				case *ast.CaseClause:
+					for _, e := range par.List {
+						if mentionsOperand(e) {
+							governed = true
+						}
+					}
+					if i >= 2 {
+						if sw, ok := stack[i-2].(*ast.SwitchStmt); ok && sw.Tag != nil && mentionsOperand(sw.Tag) {
+							governed = true
+						}
+					}
+				case *ast.BlockStmt:
+					for _, st := range par.List {
+						if st == stack[i+1] {
+							break
+						}
+						if is, ok := st.(*ast.IfStmt); ok && blockTerminates(is.Body) && mentionsOperand(is.Cond) {
+							governed = true
+						}
+					}
+				}
+			}
+			n++
+			r.check(governed, fmt.Sprintf("rshift|%s|return %s", id, exprStr(res)), rs.Pos(),
+				"a constant answer under a test of the shifted operand",
+				fmt.Sprintf("`return %s` answers a right shift with a constant on a path where nothing tests the shifted operand: Python's >> is a floor shift, so once every bit is shifted out the result is 0 for a non-negative operand and -1 for a negative one (-1 >> 64 == -1); Go's signed >> already does this for any count", exprStr(res)))
+			return true
+		})
+	}
+	for _, name := range []string{"M__rshift__", "M__rrshift__"} {
+		fn := c.Method("py", "Int", name)
+		if fn == nil {
+			r.undecided("rshift|py.Int."+name, token.NoPos, "method not found")
+			continue
+		}
+		analyse(fn, 0)
+	}
+	if n == 0 {
+		r.undecided("rshift|sites", token.NoPos, "no result-yielding return found in the right-shift methods of py.Int")
+	}
+}
+
+func init() {
+	register(&Rule{ID: "C07.R9", Prop: "C07", Floor: 2,
+		Doc: "floor semantics of >> on machine words: in py.Int's M__rshift__/M__rrshift__ and the shifting functions they call, every result-yielding return is a signed Go >> (which fills with the sign for any count), another such function's result, or a constant governed by a test that mentions the shifted operand — never a sign-blind constant for large counts",
+		Run: runRshiftSign})
+}
